@@ -179,6 +179,8 @@ def describe(x, depth=0):
     t = type(x)
     if depth > 40:
         return "<deep>"
+    if t is int and x.bit_length() > 4000:
+        return ["bigint", x.bit_length(), x % 1000003]        # (its decimal text may be beyond the interpreter's own digit limit)
     if x is None or t in (bool, int, str):
         return x
     if t is float:
@@ -1672,7 +1674,13 @@ class Span:
 SEQ_TYPES = ["int | str", "typing.Union[int, str, None]", "list[int] | list[str]", "int | float", "float | str", "datetime.date | str",
              "decimal.Decimal | str", "bool | int | str", "dict[str, int | str]", "list[int | str]", "tuple[int | str, ...]", "Row",
              "typing.Optional[Row]", "int | datetime.date", "float | datetime.timedelta", "str", "int", "list[int]", "Invoice", "list[Invoice]",
-             "Span", "dict[str, int]", "Pt2", "Pt3", "datetime.timedelta", "datetime.date", "datetime.datetime", "datetime.time"]
+             "Span", "dict[str, int]", "Pt2", "Pt3", "datetime.timedelta", "datetime.date", "datetime.datetime", "datetime.time",
+             # mappings whose KEY types share an origin (Literal, tuple) and differ in their arguments only
+             "dict[typing.Literal['a', 'b'], int]", "dict[typing.Literal['a'], int]", "dict[tuple[int, str], float]", "dict[tuple[str, int], float]",
+             "dict[tuple[int, int, int], str]"]
+KEY_TWINS = [["dict[typing.Literal['a', 'b'], int]", "dict[typing.Literal['a'], int]"], ["dict[tuple[int, str], float]", "dict[tuple[str, int], float]"],
+             ["dict[tuple[int, int, int], str]", "dict[tuple[int, str], float]"]]
+KEY_INPUTS = ["{'a': '1', 'b': '2'}", "{'b': '2'}", "{'a': '1'}", "{'1,2': '0.5'}", "{'7,8,9': 'x'}", "'{\"1,2\": \"0.5\"}'"]
 TEMPORAL_TYPES = ["datetime.timedelta", "datetime.date", "datetime.datetime", "datetime.time", "datetime.date | str", "float | datetime.timedelta"]
 TEMPORAL_TEXTS = ["'2020-01-02'", "'PT1H30M'", "'2021-05-06T07:08:09+00:00'", "'12:30:00+00:00'", "b'PT1H30M'", "b'2020-01-02'"]
 SEQ_INPUTS = ["'abc'", "'5'", "'1.5'", "5", "1.5", "float('inf')", "True", "None", "['a', 'b']", "['1', '2']", "[1, 2]", "{'k': 'abc'}",
@@ -1680,7 +1688,10 @@ SEQ_INPUTS = ["'abc'", "'5'", "'1.5'", "5", "1.5", "float('inf')", "True", "None
               "Row('abc')", "Row('5', ['1'])", "Row(5, ['a'])", "b'5'", "b'abc'", "datetime.timedelta(seconds=3)", "7200",
               "Invoice(100, 20)", "{'net': 100, 'rate': 20}", "[Invoice(1)]", "[{'net': '3'}]",
               "Span(1)", "Span(1, 5)", "Span(2, 7)", "Pt2(1, 2)", "Pt3(1, 2, 3)", "{'x': '1', 'y': '2'}", "{'x': '1', 'y': '2', 'z': '3'}",
-              "'PT1H30M'", "'2021-05-06T07:08:09+00:00'", "'12:30:00+00:00'", "b'PT1H30M'", "b'2020-01-02'"]
+              "'PT1H30M'", "'2021-05-06T07:08:09+00:00'", "'12:30:00+00:00'", "b'PT1H30M'", "b'2020-01-02'",
+              # texts and numbers beyond the interpreter's limit for int <-> str conversion (4300 digits)
+              "'9' * 5000", "'word ' * 1200", "10 ** 5000", "['7' * 4400]",
+              "{'a': '1', 'b': '2'}", "{'b': '2'}", "{'a': '1'}", "{'1,2': '0.5'}", "{'7,8,9': 'x'}", "'{\"1,2\": \"0.5\"}'"]
 SEQ_OPS = ["marshal", "unmarshal", "encode", "decode"]
 
 
@@ -1698,9 +1709,17 @@ def _seq_child(job):
         exec(SEQ_PRELUDE, mod.__dict__)
     ns = mod.__dict__
     out = []
+
+    def interpreter_state():
+        import decimal
+        c = decimal.getcontext()
+        return {"sys.get_int_max_str_digits()": sys.get_int_max_str_digits(), "sys.getrecursionlimit()": sys.getrecursionlimit(),
+                "decimal context": [c.prec, c.rounding, c.Emin, c.Emax, c.capitals, c.clamp, sorted(str(t_) for t_, on in c.traps.items() if on)],
+                "sys.getswitchinterval()": sys.getswitchinterval()}
     for op, texpr, xexpr in job:
         T = eval(texpr, ns)
         x = eval(xexpr, ns)
+        before = interpreter_state()
         try:
             if op == "marshal":
                 r = typelib.marshal(x, t=T)
@@ -1713,6 +1732,10 @@ def _seq_child(job):
             out.append(["ok", describe(r)])
         except Exception as e:  # noqa: BLE001
             out.append(["err", enc.err_class(e)])
+        after = interpreter_state()
+        if after != before:
+            # a call that changes a PROCESS-WIDE setting of the interpreter changes what every later call (of any library) does
+            out[-1] = out[-1] + [{"interpreter state changed": {k: [before[k], after[k]] for k in before if before[k] != after[k]}}]
     return out
 
 
@@ -1748,6 +1771,12 @@ def check_sequences(ctx, res):
                 if t1 != t2:
                     warm_jobs.append([("unmarshal", t1, x), ("unmarshal", t2, x)])
         warm_jobs.append([(op, t, x) for op in ("unmarshal", "decode") for t in TEMPORAL_TYPES] + [("unmarshal", t, x) for t in reversed(TEMPORAL_TYPES)])
+    # mapping types whose key annotations share an origin: what one converted a key text to is nothing to the other
+    for t1, t2 in KEY_TWINS:
+        for a, b in ((t1, t2), (t2, t1)):
+            for x in KEY_INPUTS:
+                for y in KEY_INPUTS:
+                    warm_jobs.append([("unmarshal", a, x), ("unmarshal", b, y)])
     outs = iso.map_isolated(_seq_child, cold_jobs + warm_jobs, timeout=120.0)
     cold = {}
     for job, o in zip(cold_jobs, outs[:len(cold_jobs)]):
@@ -1759,6 +1788,10 @@ def check_sequences(ctx, res):
             raise RuntimeError(f"harness: sequence probe failed: {o}")
         for i, (step, got) in enumerate(zip(job, o)):
             res.case({"seq": list(step), "after": i}, i > 0)
+            if len(got) > 2:
+                res.failures.append({"what": f"{step[0]}({step[1]}, {step[2][:60]}) changed process-wide interpreter state: {json.dumps(got[2])[:300]}",
+                                     "input": {"sequence": [list(step)]}, "warm": got[:2], "cold": cold[step][:2]})
+                break
             if got != cold[step]:
                 # minimise: the shortest prefix + this step that still differs
                 hist = job[:i + 1]
